@@ -240,6 +240,20 @@ func c18RL(v c18Vec) corev1.ResourceList {
 	}
 }
 
+var c18NodeNames, c18PodNames = func() ([]string, [][]string) {
+	var nn []string
+	var pn [][]string
+	for i := 0; i < 8; i++ {
+		nn = append(nn, fmt.Sprintf("n%d", i))
+		var row []string
+		for j := 0; j < 8; j++ {
+			row = append(row, fmt.Sprintf("n%d-p%d", i, j))
+		}
+		pn = append(pn, row)
+	}
+	return nn, pn
+}()
+
 // c18Load replaces the contents of the fakes by the snapshot rd and returns the node objects handed to Balance.
 func c18Load(cfg *c18Cfg, rd *c18Round, h *c18Handle, l *c18Lister, applyPod func(*corev1.Pod)) []*corev1.Node {
 	now := time.Now()
@@ -253,7 +267,7 @@ func c18Load(cfg *c18Cfg, rd *c18Round, h *c18Handle, l *c18Lister, applyPod fun
 	nodes := make([]*corev1.Node, 0, len(rd.Nodes))
 	for i := range rd.Nodes {
 		n := &rd.Nodes[i]
-		name := fmt.Sprintf("n%d", i)
+		name := c18NodeNames[i]
 		alloc := c18RL(n.Alloc)
 		alloc[corev1.ResourcePods] = *resource.NewQuantity(110, resource.DecimalSI)
 		node := &corev1.Node{
@@ -271,7 +285,7 @@ func c18Load(cfg *c18Cfg, rd *c18Round, h *c18Handle, l *c18Lister, applyPod fun
 		var pms []*slov1alpha1.PodMetricInfo
 		for j, p := range n.Pods {
 			pod := &corev1.Pod{
-				ObjectMeta: metav1.ObjectMeta{Namespace: "default", Name: fmt.Sprintf("n%d-p%d", i, j), Labels: map[string]string{}},
+				ObjectMeta: metav1.ObjectMeta{Namespace: "default", Name: c18PodNames[i][j], Labels: map[string]string{}},
 				Spec:       corev1.PodSpec{NodeName: name},
 				Status:     corev1.PodStatus{Phase: corev1.PodRunning},
 			}
